@@ -235,6 +235,10 @@ package media
 //@ func Regist(s *Stream) ()
 //@   requires s != nil && (mapAt(&streams, s.path) != nil ==> streamOK(mapAt(&streams, s.path)))
 //@   modifies mapAt(&streams, s.path), all()
+// the successor is published BEFORE the previous holder is retired: at no moment does the path resolve to a stream that
+// has already been closed (a lookup racing the replacement gets the old live stream or the new one)
+//@   assert[call:close] mapAt(&streams, s.path) == s
+//@   assert[call:runZeroConsumersCloseTask] mapAt(&streams, s.path) == s
 //@   ensures mapAt(&streams, s.path) == s
 //@   ensures old(mapAt(&streams, s.path)) == s ==> s.status == old(s.status)
 //@   ensures old(mapAt(&streams, s.path)) != nil && old(mapAt(&streams, s.path)) != s && old(mapAt(&streams, s.path).(*Stream).ConsumerCount()) <= 0 && old(mapAt(&streams, s.path).(*Stream).status) == StreamOK ==> old(mapAt(&streams, s.path)).(*Stream).status == StreamReplaced
@@ -284,9 +288,13 @@ package media
 //@ extern func (c Consumer) Consume(pack Pack) ()
 //@   panics
 //@   modifies misc(c)
+// closes(c): ghost counter of INVOCATIONS of the consumer's Close; an implementation may panic (it is foreign code: a
+// transport adapter), and the invocation counts then too
 //@ extern func (c Consumer) Close() (err error)
+//@   panics
 //@   modifies ghostInt(c, "closes")
 //@   ensures ghostInt(c, "closes") == old(ghostInt(c, "closes")) + 1
+//@   onpanic ghostInt(c, "closes") == old(ghostInt(c, "closes")) + 1
 //@ extern func (f stats.Flow) AddOut(size int64) ()
 //@   modifies misc(f)
 //@ extern func (l *xlog.Logger) Warn(msg string, fields ...xlog.Field) ()
@@ -303,8 +311,12 @@ package media
 //@   loop 0: modifies c.closed, seq(c.recvQueue.Queue()), misc(c.consumer), misc(c.Flow)
 //@   loop 0: invariant c.recvQueue != nil && c.consumer != nil && c.stream != nil && c.logger != nil && c.Flow != nil
 //@   assert[call:Pop] !c.closed
+// on EVERY exit - also when the consumer's own Close panics inside the cleanup (swallowed by the handler's nested
+// recover, which skips the rest of the cleanup) - the consumer has been detached from the stream (one removal attempted)
+// and its Close has been invoked exactly once
 //@   ensures ghostInt(old(c.consumer), "closes") == old(ghostInt(c.consumer, "closes")) + 1
-//@   ensures c.stream == nil && c.consumer == old(c.consumer)
+//@   ensures ghostInt(&old(c.stream).consumptions, "removed") + ghostInt(&old(c.stream).flvConsumptions, "removed") == old(ghostInt(&c.stream.consumptions, "removed") + ghostInt(&c.stream.flvConsumptions, "removed")) + 1
+//@   ensures c.consumer == old(c.consumer) && (c.stream == nil || c.stream == old(c.stream))
 
 // ---- C05: lookups never change the registry ------------------------------------------------------------------------------
 // Get returns what the registry holds under the canonical path; GetOrCreate returns that entry when there is one and
